@@ -263,6 +263,9 @@ def sc_overmount(sess, rng, tb, findings, nsteps):
         else: g.request()
     if not c.dead: probe_mount_paths(g, c, findings)
     if not c.dead: probe_backend_names(g, c, findings)
+    if not c.dead and rng.random() < 0.3:
+        # `offset + 1` in PseudoFs::do_readdir overflows (debug build: panic); ends the history, model and code must agree
+        g.request('readdir', rng.choice([ROOT_INO, 2]), size=4096, offset=TWO64 - 1, limit=10, ans=mk_ans())
     return c
 
 def gen_cases(sess, rng, tb, tier, findings):
@@ -353,3 +356,6 @@ def run_check(tier, seed):
     for f in uniq: f['count'] = seen[json.dumps(f.get('sig'), sort_keys=True)]
     return finish(ev, PROP, uniq, broken)
 
+
+def replay(path):
+    return replay_generic(PROP, path)
